@@ -223,18 +223,25 @@ func c20(c *Ctx) {
 		default:
 			vs = []reg.Register{coll.K()}
 		}
-		for _, idx := range []uint32{8, 16, 31, 32, 33, 64, 100, 255, 256, 257, 260, 264, 271, 272, 287, 511, 512, 515, 1024, 4096, 4100, 32768, 65280, 65281, 65535} {
-			id := reg.ID(uint32(kind)<<8 | idx<<16)
-			for _, v := range vs {
-				a := reg.NewEmptyAllocation()
-				a[v.ID()] = id
-				out := a.LookupRegister(v)
-				oc, outs := "None", "nothing"
-				if out != nil {
-					oc, outs = "(Some "+cReg(out)+")", out.Asm()
+		for _, idx := range []uint32{0, 1, 4, 5, 8, 16, 31, 32, 33, 64, 100, 255, 256, 257, 260, 264, 271, 272, 287, 511, 512, 515, 1024, 4096, 4100, 32768, 65280, 65281, 65535} {
+			for _, virt := range []uint32{0, 1} {
+				if virt == 1 && idx > 33 {
+					continue
 				}
-				lrows = append(lrows, fmt.Sprintf("(%d, %d, %s)", uint64(id), uint64(v.Mask()), oc))
-				o.AddCase(Case{Key: "regs:binding-lookup:number", Desc: fmt.Sprintf("virtual register with mask %#x allocated to register number %d of kind %d binds to %s", v.Mask(), idx, kind, outs), Input: map[string]any{"kind": uint64(kind), "number": idx, "mask": v.Mask()}, Nontrivial: true})
+				// virt = 1: an allocation entry whose target is itself a virtual register (numbers 8..33 exist as
+				// hardware numbers too): no physical view may be found for it
+				id := reg.ID(uint32(kind)<<8 | idx<<16 | virt)
+				for _, v := range vs {
+					a := reg.NewEmptyAllocation()
+					a[v.ID()] = id
+					out := a.LookupRegister(v)
+					oc, outs := "None", "nothing"
+					if out != nil {
+						oc, outs = "(Some "+cReg(out)+")", out.Asm()
+					}
+					lrows = append(lrows, fmt.Sprintf("(%d, %d, %s)", uint64(id), uint64(v.Mask()), oc))
+					o.AddCase(Case{Key: "regs:binding-lookup:number", Desc: fmt.Sprintf("virtual register with mask %#x allocated to register number %d of kind %d (virtual bit %d) binds to %s", v.Mask(), idx, kind, virt, outs), Input: map[string]any{"kind": uint64(kind), "number": idx, "mask": v.Mask(), "virtual": virt}, Nontrivial: true})
+				}
 			}
 		}
 	}
